@@ -714,6 +714,14 @@ def c07(tier):
         small = sum(len(x) for x in sc.tree.values()) <= 12 and not sc.kw.get("pad")
         K, n = rl.sweep(binary, sc, "edit", kinds, batch, v, follow=("recover" if small else None))
         log("[sweep] %s: %d operations, %d runs" % (sc.name, K, n))
+    # the same sweep with TMPDIR on another file system (no file can be moved into place; nothing may appear in the project)
+    for structured in (False, True):
+        sc = rl.small_trees(structured=structured)[0]
+        sc.kw["tmp_on_other_fs"] = True
+        sc.kw["extra_files"] = EXTRA
+        sc.name += "-xdev"
+        K, n = rl.sweep(binary, sc, "edit", ["kill_before", "kill_after", "EIO"], batch, v, follow="recover")
+        log("[sweep] %s: %d operations, %d runs" % (sc.name, K, n))
     batch.judge(v, {"C07"})
     v.cov["rule"] = ("every counted filesystem operation k of a fault-free edit run x fault kind "
                      "(kill before/after, EIO, ENOSPC, EACCES, EXDEV on rename); on the small trees each is followed by "
